@@ -16,6 +16,7 @@ package main
 import (
 	"encoding/json"
 	"fmt"
+	"github.com/BondMachineHQ/BondMachine/pkg/procbuilder"
 	"math"
 	"math/big"
 	"math/rand"
@@ -263,7 +264,8 @@ func runC08(r *evid.Run) {
 		cfg = "NumLit_thorough.cfg"
 	}
 	rowPath, widePath, lqPath := filepath.Join(scratch, "rows.ndjson"), filepath.Join(scratch, "widerows.ndjson"), filepath.Join(scratch, "lqrows.ndjson")
-	res2, err := tlc.Run(tlc.Options{SpecDir: specDir, Module: "NumLit", Cfg: cfg, Workers: 8, Timeout: 20 * time.Minute, Env: map[string]string{"ROWS": rowPath, "WIDEROWS": widePath, "LQROWS": lqPath}})
+	notPath := filepath.Join(scratch, "notlits.ndjson")
+	res2, err := tlc.Run(tlc.Options{SpecDir: specDir, Module: "NumLit", Cfg: cfg, Workers: 8, Timeout: 20 * time.Minute, Env: map[string]string{"ROWS": rowPath, "WIDEROWS": widePath, "LQROWS": lqPath, "NOTLITS": notPath}})
 	if err != nil {
 		r.Inconclusive("tlc: %v", err)
 		return
@@ -339,6 +341,14 @@ func runC08(r *evid.Run) {
 			r.Violate("width:wide:"+row.Nt, fmt.Sprintf("%q states width %d but the imported pattern has width %d", text, row.Den.Width, wd), ctx)
 			return nil
 		}
+		if len(row.Bits) <= 64 && row.Nt == "0uS" {
+			// the same value handed over as a machine word (what the simulator does with a register)
+			if nu, err := bmnumbers.ImportUint(v.Uint64(), 0); err != nil {
+				r.Violate("import-uint-error", fmt.Sprintf("ImportUint(%d) fails: %v", v.Uint64(), err), ctx)
+			} else if bu, _ := nu.ExportBinary(false); strings.TrimLeft(bu, "0") != strings.TrimLeft(want, "0") {
+				r.Violate("import-uint-value", fmt.Sprintf("ImportUint(%d) holds %s (binary), the number is %s", v.Uint64(), bu, want), ctx)
+			}
+		}
 		if len(row.Padded) > 0 {
 			if s, err := n.ExportBinaryNBits(row.Size); err != nil || s != bitsStr(row.Padded) {
 				r.Violate("nbits-value:wide:"+row.Nt, fmt.Sprintf("ExportBinaryNBits(%d) of %q = %q (%v), expected %s", row.Size, text, s, err, bitsStr(row.Padded)), ctx)
@@ -367,6 +377,30 @@ func runC08(r *evid.Run) {
 		return
 	}
 	r.Set("wide_literal_rows", wideRows)
+	var notLits int64
+	nerr := readNDJSON(notPath, func(b []byte) error {
+		var row struct {
+			Text string `json:"text"`
+		}
+		if err := json.Unmarshal(b, &row); err != nil {
+			return err
+		}
+		notLits++
+		ctx := map[string]interface{}{"text": row.Text}
+		if n, err := bmnumbers.ImportString(row.Text); err == nil {
+			bin, wd, t, _ := numInfo(n)
+			r.Violate("accepted-not-a-literal:importer", fmt.Sprintf("%q is no literal of any notation and is imported as %s/%d/%s", row.Text, bin, wd, t), ctx)
+		}
+		if pb, err := procbuilder.Process_number(row.Text); err == nil {
+			r.Violate("accepted-not-a-literal:assembler", fmt.Sprintf("%q is no literal of any notation and the assembler's Process_number reads it as %s (binary)", row.Text, pb), ctx)
+		}
+		return nil
+	})
+	if nerr != nil {
+		r.Inconclusive("not-literals rows: %v", nerr)
+		return
+	}
+	r.Set("non_literal_strings_refused", notLits)
 	// the linear quantiser: band numbers as two's complement patterns of the stated width
 	const lqRange, lqMax = 7, 8.0
 	for _, d := range bmnumbers.AllDynamicalTypes {
@@ -462,6 +496,11 @@ func runC08(r *evid.Run) {
 			ctx["real"] = fmt.Sprintf("%s/%d/%s", bin, wd, typ)
 			if bin != bitsStr(row.MinBin) || typ != row.Den.Type {
 				r.Violate("denotation:"+row.Lit.Nt, fmt.Sprintf("%q denotes value %d of type %s but imports as %s (binary) of type %s", text, row.Den.Value, row.Den.Type, bin, typ), ctx)
+				continue
+			}
+			// the assembler reads its numeric operands through procbuilder.Process_number: one meaning
+			if pb, perr := procbuilder.Process_number(text); perr != nil || strings.TrimLeft(pb, "0") != strings.TrimLeft(bin, "0") {
+				r.Violate("assembler-reads-another-number:"+row.Lit.Nt, fmt.Sprintf("%q is %s (binary) for the importer and %q (%v) for the assembler's Process_number", text, bin, pb, perr), ctx)
 				continue
 			}
 			sized := strings.HasSuffix(row.Lit.Nt, "S")
